@@ -33,6 +33,18 @@ def gate_rule(ctx, R):
     """every exported Gen subclass that builds sequences consults block.show_errors() before any solving / enumeration
     and returns an empty result when it reports a fatal error (shared with C08)"""
     repo = ctx.repo
+    # ---- the gate's verdict is a function of the recorded errors alone: show_errors reads no other attribute of the block
+    # and writes none, so asking twice (a second sampling call on the same block) gives the same answer
+    se_ = ctx.fn("block:Block.show_errors")
+    reads_ = sorted({dotted(n_) for n_ in ast.walk(se_.node) if isinstance(n_, ast.Attribute) and dotted(n_) and dotted(n_).startswith("self.") and dotted(n_).count(".") == 1} - {"self.errors"})
+    writes_ = [ast.unparse(x)[:60] for x in statements(se_.node) if isinstance(x, (ast.Assign, ast.AugAssign)) and
+               any(dotted(t) and dotted(t).startswith("self.") for t in (x.targets if isinstance(x, ast.Assign) else [x.target]))]
+    muts_ = [ast.unparse(c_)[:60] for c_ in calls(se_.node) if isinstance(c_.func, ast.Attribute) and dotted(c_.func.value) and dotted(c_.func.value).startswith("self.") and
+             c_.func.attr in ("add", "update", "append", "extend", "clear", "remove", "discard", "pop")]
+    ctx.check(not reads_ and not writes_ and not muts_, R, se_, "show_errors is a function of self.errors",
+              "the error gate depends on the recorded errors only and leaves no state behind",
+              "Block.show_errors reads %s / writes %s: its verdict depends on earlier calls, so a later sampling call on a block with a fatal error is let through" % (
+                  reads_ or "-", (writes_ + muts_) or "-"))
     # ---- gate in every sampler
     gen = repo.cls("base:Gen")
     n = 0
